@@ -252,10 +252,24 @@ a `RegexSet` matches iff one of its patterns does). -/
 def groupGlob (pats : List (Path × Glob)) (dir : Path) : Glob :=
   fun tail => (pats.filter (fun p => p.1 == dir)).any (fun p => p.2 tail)
 
-/-- `GlobsMatcherBuilder::build`: every directory that has patterns gets the `RegexSet` of its
-chunk (setting the same chunk twice is idempotent, so we iterate over the patterns). -/
+/-- `GlobsMatcherBuilder::build`, tree part: every directory that has patterns gets the `RegexSet`
+of its chunk (setting the same chunk twice is idempotent, so we iterate over the patterns). -/
 def globsNew (pats : List (Path × Glob)) : Tree (Option Glob) :=
   pats.foldl (fun t p => t.updAt none p.1 (fun _ => some (groupGlob pats p.1))) (Tree.empty none)
+
+/-- `glob_to_prefix_regex`: the anchored glob regex `^P$` becomes `^P(?:/|$)`, searched unanchored
+at the end.  If `f` is the language of `^P$` on tails, the new regex accepts a tail iff some
+component-aligned, non-empty prefix of it is in `f` (the prefix is followed by `/` or the end),
+or the tail is empty and `f` accepts the empty string. -/
+def prefixOf (f : Glob) : Glob := fun t =>
+  match t with
+  | [] => f []
+  | _ :: _ => (List.range t.length).any (fun k => f (t.take (k + 1)))
+
+/-- `GlobsMatcherBuilder::build`: in prefix mode every pattern goes through
+`glob_to_prefix_regex` first. -/
+def globsBuild (pfx : Bool) (pats : List (Path × Glob)) : Tree (Option Glob) :=
+  globsNew (if pfx then pats.map (fun p => (p.1, prefixOf p.2)) else pats)
 
 /-! ### matcher expressions -/
 
@@ -296,7 +310,7 @@ def Matcher.visit : Matcher → Path → Visit
 /-- `FilesMatcher::new`, `PrefixMatcher::new`, `GlobsMatcher::builder()…build()` -/
 def Matcher.files (ps : List Path) : Matcher := .filesM (filesNew ps)
 def Matcher.prefixes (ps : List Path) : Matcher := .prefixM (prefixNew ps)
-def Matcher.globs (pfx : Bool) (pats : List (Path × Glob)) : Matcher := .globsM pfx (globsNew pats)
+def Matcher.globs (pfx : Bool) (pats : List (Path × Glob)) : Matcher := .globsM pfx (globsBuild pfx pats)
 
 /-! ### the soundness statement (C30) -/
 
@@ -321,6 +335,10 @@ def Sound (m : Matcher) : Prop := SoundMV m.mat m.visit
 /-- a prefix-mode pattern set is closed under path extension (the shape `…(?:/|$)` produced by
 `glob_to_prefix_regex`; part of assumption A5, checked on the truth tables by the harness) -/
 def ExtClosed (g : Glob) : Prop := ∀ t ext, g t = true → g (t ++ ext) = true
+
+/-- a glob that accepts the empty string accepts every single component (only `*`-like tokens can
+match the empty string, and they match any name; part of assumption A5) -/
+def EmptyOk (f : Glob) : Prop := f [] = true → ∀ c, f [c] = true
 
 def Forest.All (P : V → Prop) : Forest V → Prop
   | .nil => True
